@@ -48,6 +48,15 @@ mod bitops_avx2;
 #[cfg(test)]
 pub mod test;
 
+// Verification hook (guarded): the contract / harness module lives outside the repository
+// and is compiled into the crate only by `cargo kani` (cfg(kani)) or by the counterexample
+// replay build (--cfg debruijn_verif). With both off this item is stripped before `env!` expands.
+#[cfg(any(kani, debruijn_verif))]
+#[allow(dead_code, unused_imports, unused_macros, unused_variables, non_snake_case)]
+pub mod verif {
+    include!(concat!(env!("DEBRUIJN_VERIF_DIR"), "/kani/verif.rs"));
+}
+
 /// Convert a 2-bit representation of a base to a char
 #[inline]
 pub fn bits_to_ascii(c: u8) -> u8 {
